@@ -55,6 +55,24 @@ fn main() {
     };
     let t0 = Instant::now();
     let mut jobs = (def.jobs)(tier, seed);
+    // quick tier: after the quick box, a seeded sample of the thorough box fills what is left of the budget
+    // (non-mandatory, quick per-job and per-query limits), so that changes which only manifest on larger
+    // structures have a chance to be seen on every run
+    let mut extras = 0usize;
+    if tier == Tier::Quick && arg(&args, "--replay").is_none() && std::env::var("SYMK_NO_EXTRAS").is_err() {
+        let have: std::collections::HashSet<String> = jobs.iter().map(|j| j.name.clone()).collect();
+        let mut more: Vec<Job> = (def.jobs)(Tier::Thorough, seed).into_iter().filter(|j| !have.contains(&j.name)).collect();
+        symk::checks::Rng::new(seed ^ 0x5eed).shuffle(&mut more);
+        more.truncate(20_000);
+        for j in more.iter_mut() {
+            j.mandatory = false;
+            j.budget = Duration::from_secs(30);
+            j.cfg.query_timeout_ms = 20_000;
+            j.name = format!("[thorough-box sample] {}", j.name);
+        }
+        extras = more.len();
+        jobs.extend(more);
+    }
     // a binary can only replay natively in the arithmetic profile it was compiled with:
     // `release` cargo profile here = dev semantics (overflow checks on), `relnative` = wrapping.
     let native_dev = cfg!(debug_assertions);
@@ -179,6 +197,7 @@ fn main() {
             c
         }),
         ("wall_s", J::F(wall)),
+        ("thorough_box_sample_jobs_offered", J::I(extras as i64)),
         ("violations", J::A(vio_json)),
         ("mismatches", J::A(mm_json)),
         ("engine_errors", J::A(sum.engine_errors.iter().chain(xc.3.iter()).map(|e| J::s(e)).collect())),
